@@ -102,6 +102,10 @@ func bufferOps(ops []bop) []bop {
 // childC02 runs the program on the database in args[0]; every acknowledged write appends its
 // index to <dir>/../acklog with a direct write system call.
 func childC02(c *Case, args []string) {
+	if hdrVal(c.Hdr, "mode", "") == "retention" {
+		childC02Retention(c, args)
+		return
+	}
 	dir := args[0]
 	ack, _ := os.OpenFile(filepath.Join(filepath.Dir(dir), "acklog"), os.O_CREATE|os.O_WRONLY|os.O_APPEND, 0644)
 	holdBackground()
@@ -183,6 +187,10 @@ func childC02(c *Case, args []string) {
 }
 
 func runC02(c *Case, out func(string)) {
+	if hdrVal(c.Hdr, "mode", "") == "retention" {
+		runC02Retention(c, out)
+		return
+	}
 	memsize, _ := strconv.ParseInt(hdrVal(c.Hdr, "memsize", "4096"), 10, 64)
 	mode := hdrVal(c.Hdr, "sync", "immediate")
 	writes, _ := c02Writes(c)
